@@ -21,7 +21,11 @@
 //@ item src/syll.rs enum StressKind
 //@ item src/syll.rs type Tone
 //@ item src/syll.rs struct Syllable
-//@ item src/syll.rs impl Syllable members=get_seg_length_at,apply_supras,apply_syll_mods
+//@ item src/parser.rs struct Modifiers
+//@ item src/lexer.rs impl NodeType members=count
+//@ item src/lexer.rs impl FType members=count
+//@ item src/seg.rs impl Segment members=apply_seg_mods
+//@ item src/syll.rs impl Syllable members=replace_segment,insert_segment,get_seg_length_at,apply_seg_mods,apply_supras,apply_syll_mods
 
 //@ pre
 use std::cell::RefCell;
@@ -33,6 +37,15 @@ use std::collections::{HashMap, VecDeque};
 #[verifier::external_body]
 #[verifier::reject_recursive_types(T)]
 pub struct ExRefCell<T: ?Sized>(RefCell<T>);
+
+// std: VecDeque::get_mut is not specified by vstd.  Its documented behaviour (trusted):
+pub assume_specification<T, A: core::alloc::Allocator>[ VecDeque::<T, A>::get_mut ](v: &mut VecDeque<T, A>, i: usize) -> (r: Option<&mut T>)
+    ensures
+        i < old(v)@.len() ==> r is Some && *r->Some_0 == old(v)@[i as int] && final(v)@ == old(v)@.update(i as int, *final(r->Some_0)),
+        i >= old(v)@.len() ==> r is None && final(v)@ == old(v)@;
+
+/// result of applying a segmental matrix to one segment (None = error); uninterpreted -- see Segment::apply_seg_mods
+pub(crate) uninterp spec fn asm(s: Segment, al: &RefCell<HashMap<char, Alpha>>, nodes: [Option<ModKind>; 8], feats: [Option<ModKind>; 26]) -> Option<Segment>;
 
 /// truth value a bound alpha carries in a binding table (None = unbound).  Uninterpreted: the
 /// table is opaque (RefCell<HashMap>), and nothing in this kernel writes to it.
@@ -47,6 +60,15 @@ pub(crate) uninterp spec fn alpha_truth(al: &RefCell<HashMap<char, Alpha>>, ch: 
     // body by the Kani harness parser::verif_kani::k4_as_bool.
     ensures
         /*#as_bool.assumed C05*/ (match mk_truth(*self, alphas) { Some(t) => r is Ok && r->Ok_0 == t, None => r is Err }),
+//@ end
+//@ stub Segment::apply_seg_mods
+//@ contract Segment::apply_seg_mods ret=r
+    // ASSUMED here (R6: the body reads the RefCell<HashMap> binding table); its behaviour on the
+    // segment is PROVED by the Kani harnesses k3_apply_* (C04).  All this kernel needs is that, with
+    // is_matching_ipa == false, it is a deterministic function of its arguments that touches only `self`.
+    ensures
+        /*#seg_apply_seg_mods.assumed_function C14,C05*/ !is_matching_ipa ==> (match asm(*old(self), alphas, nodes, feats) {
+            Some(t) => r is Ok && *final(self) == t, None => r is Err }),
 //@ end
 //@ attr Alpha::as_binary
 #[verifier::external_body]
@@ -123,6 +145,17 @@ proof fn lemma_resized_len(s0: Seq<Segment>, pos: int, m: int)
         m >= 1 ==> resized(s0, pos, m)[pos] == s0[pos],
 {
     lemma_run_len(s0, pos);
+}
+
+proof fn lemma_resized_len_all(s0: Seq<Segment>, pos: int)
+    requires 0 <= pos < s0.len()
+    ensures forall|m: int| m >= 0 ==> (#[trigger] resized(s0, pos, m)).len() == s0.len() - run_len(s0, pos) + m,
+        1 <= run_len(s0, pos) <= s0.len() - pos,
+{
+    lemma_run_len(s0, pos);
+    assert forall|m: int| m >= 0 implies (#[trigger] resized(s0, pos, m)).len() == s0.len() - run_len(s0, pos) + m by {
+        lemma_resized_len(s0, pos, m);
+    }
 }
 
 // ---------------- the manual's tables (doc/doc.md "Suprasegmental Features") and the property text
@@ -246,10 +279,13 @@ fn witness_supras(sy: &mut Syllable, alphas: &RefCell<HashMap<char, Alpha>>, p: 
             && slot_defined(mods.stress[0], alphas) && slot_defined(mods.stress[1], alphas)
             && !(tv(mods.length[0], alphas) == Some(false) && tv(mods.length[1], alphas) == Some(true))
             && !(tv(mods.stress[0], alphas) == Some(false) && tv(mods.stress[1], alphas) == Some(true))) ==> r is Ok,
+        /*#apply_supras.length_change_is_the_size_change C02,C05*/ r matches Ok(lc) ==> (
+            final(self).segments@.len() == old(self).segments@.len() + lc && -(old(self).segments@.len() as int) <= lc <= 3),
         /*#apply_supras.prosody_only_leaves_segments C14*/ (mods.length[0].is_none() && mods.length[1].is_none()) ==> final(self).segments@ =~= old(self).segments@,
 //@ end
 //@ proof_start Syllable::apply_supras
     lemma_run_len(self.segments@, pos as int);
+    lemma_resized_len_all(self.segments@, pos as int);
 //@ end
 //@ loop Syllable::apply_supras 0
     invariant
@@ -381,4 +417,76 @@ fn witness_supras(sy: &mut Syllable, alphas: &RefCell<HashMap<char, Alpha>>, p: 
         /*#apply_syll_mods.errors_only_when_documented C05*/ (slot_defined(mods.stress[0], alphas) && slot_defined(mods.stress[1], alphas)
             && !(tv(mods.stress[0], alphas) == Some(false) && tv(mods.stress[1], alphas) == Some(true))) ==> r is Ok,
         /*#apply_syll_mods.error_leaves_state C05*/ r is Err ==> final(self).stress == old(self).stress && final(self).tone == old(self).tone,
+//@ end
+
+// =================================================================== Syllable::apply_seg_mods / replace_segment / insert_segment
+//@ attr Syllable::apply_seg_mods
+#[verifier::loop_isolation(false)]
+//@ end
+//@ contract Syllable::apply_seg_mods ret=r
+    requires
+        /*#syll_apply_seg_mods.in_bounds C02*/ start_pos < old(self).segments@.len(),
+        old(self).segments@.len() + 3 <= isize::MAX,
+    ensures
+        /*#syll_apply_seg_mods.segmental_only_keeps_prosody_and_count C14*/ (r is Ok && mods.suprs.length[0].is_none() && mods.suprs.length[1].is_none()
+            && mods.suprs.stress[0].is_none() && mods.suprs.stress[1].is_none() && mods.suprs.tone.is_none()) ==> (
+            final(self).stress == old(self).stress && final(self).tone == old(self).tone
+            && final(self).segments@.len() == old(self).segments@.len()
+            && r->Ok_0 == 0
+            && (forall|j: int| 0 <= j < old(self).segments@.len() && !(start_pos <= j < start_pos + run_len(old(self).segments@, start_pos as int))
+                    ==> final(self).segments@[j] == old(self).segments@[j])
+            && (forall|j: int| start_pos <= j < start_pos + run_len(old(self).segments@, start_pos as int)
+                    ==> Some(final(self).segments@[j]) == asm(old(self).segments@[start_pos as int], alphas, mods.nodes, mods.feats))),
+        /*#syll_apply_seg_mods.length_change_bounded C02*/ r matches Ok(lc) ==> -(old(self).segments@.len() as int) <= lc <= 3
+            && final(self).segments@.len() == old(self).segments@.len() + lc,
+//@ end
+//@ loop Syllable::apply_seg_mods 0
+    invariant
+        start_pos < old(self).segments@.len(),
+        pos + seg_len == start_pos + run_len(old(self).segments@, start_pos as int),
+        start_pos <= pos, pos + seg_len <= old(self).segments@.len(),
+        self.segments@.len() == old(self).segments@.len(),
+        self.stress == old(self).stress, self.tone == old(self).tone,
+        forall|j: int| 0 <= j < self.segments@.len() && !(start_pos <= j < pos) ==> self.segments@[j] == old(self).segments@[j],
+        forall|j: int| start_pos <= j < pos ==> Some(self.segments@[j]) == asm(old(self).segments@[start_pos as int], alphas, mods.nodes, mods.feats),
+    decreases seg_len,
+//@ end
+//@ proof_start Syllable::apply_seg_mods
+    lemma_run_len(self.segments@, start_pos as int);
+//@ end
+
+//@ attr Syllable::replace_segment
+#[verifier::loop_isolation(false)]
+//@ end
+//@ contract Syllable::replace_segment ret=r
+    requires
+        /*#replace_segment.in_bounds C02*/ pos < old(self).segments@.len(),
+        old(self).segments@.len() + 3 <= isize::MAX,
+    ensures
+        /*#replace_segment.one_for_one C14,C05*/ mods.is_none() ==> (r is Ok
+            && final(self).segments@ =~= old(self).segments@.subrange(0, pos as int).push(*seg)
+                + old(self).segments@.subrange(pos + run_len(old(self).segments@, pos as int), old(self).segments@.len() as int)
+            && r->Ok_0 == 1 - run_len(old(self).segments@, pos as int)
+            && final(self).stress == old(self).stress && final(self).tone == old(self).tone),
+//@ end
+//@ loop Syllable::replace_segment 0
+    invariant
+        pos < old(self).segments@.len(),
+        1 <= seg_len, seg_len as int <= run_len(old(self).segments@, pos as int),
+        self.segments@ =~= old(self).segments@.subrange(0, pos + 1)
+            + old(self).segments@.subrange(pos + 1 + (run_len(old(self).segments@, pos as int) - seg_len), old(self).segments@.len() as int),
+        self.stress == old(self).stress, self.tone == old(self).tone,
+    decreases seg_len,
+//@ end
+//@ proof_start Syllable::replace_segment
+    lemma_run_len(self.segments@, pos as int);
+//@ end
+
+//@ contract Syllable::insert_segment ret=r
+    requires old(self).segments@.len() + 4 <= isize::MAX,
+        /*#insert_segment.mods_need_in_bounds_pos C02*/ mods.is_some() ==> pos <= old(self).segments@.len(),
+    ensures
+        /*#insert_segment.inserts_one C14*/ mods.is_none() ==> (r is Ok && r->Ok_0 == 0
+            && final(self).segments@ =~= (if pos > old(self).segments@.len() { old(self).segments@.push(*seg) } else { old(self).segments@.insert(pos as int, *seg) })
+            && final(self).stress == old(self).stress && final(self).tone == old(self).tone),
 //@ end
